@@ -284,6 +284,15 @@ impl LightClientProtocol {
             );
             return Err(StatusCode::InvalidNonce.with_context(errmsg));
         }
+        // Check total difficulty
+        if !verifiable_header.is_total_difficulty_valid() {
+            let errmsg = format!(
+                "total difficulty is overflow for block#{}, hash: {:#x}",
+                header.number(),
+                header.hash()
+            );
+            return Err(StatusCode::InvalidTotalDifficulty.with_context(errmsg));
+        }
         // Check Chain Root
         if !verifiable_header.patched_is_valid(self.mmr_activated_epoch()) {
             let errmsg = format!(
